@@ -1,5 +1,5 @@
 (* Props/C02.v — disk archive round trip (.sd and .fd): create, then list/extract, is lossless. *)
-Require Import PyBase GenDisk Disk ThomsonDos DiskDefs DiskLoopProofs.
+Require Import PyBase GenDisk Disk ThomsonDos DiskDefs DiskLoopProofs TapeStateProofs EffectState DiskStateProofs.
 Open Scope Z_scope.
 
 (* for either flavour, every source list (end-of-side markers anywhere, any sizes from 0 bytes to
@@ -31,3 +31,23 @@ Theorem C02_stored_are_the_sources : forall (is_fd v init : bool) (fs : fsmap) (
          (somes (map (source_item fs) srcs)).
 Proof. exact inject_stores_sources_in_order. Qed.
 Print Assumptions C02_stored_are_the_sources.
+
+(* from effects to the state of the destination: the files decoded on side i are the files the
+   create report announced there, and - when no two extracted files claim one path (names
+   pairwise distinct per side) - each of them is read back, with exactly its bytes, at
+   side<i>/LABEL after the extraction, whatever the directory held before (fs0) *)
+Theorem C02_directory_after_extract : forall (is_fd v v2 : bool) (fs fs0 : fsmap) (arch : list Z) (srcs : list (list Z)) (raw : list Z) (into : option (list Z)),
+  sources_ok fs -> srcs_printable srcs ->
+  existsb (Z.eqb 0) (target_of into arch) = false ->
+  d_effects (disk_create is_fd v fs arch srcs) = [WriteFile arch raw] ->
+  exists files : list (list dos_file),
+    length files = 4%nat /\
+    (forall i : nat, (i < 4)%nat ->
+      let stored := filter item_stored (files_of_log (Z.of_nat i) (d_log (disk_create is_fd v fs arch srcs))) in
+      map dos_view (nth i files []) = map item_dos stored) /\
+    (NoDup (write_paths (d_effects (disk_extract is_fd v2 into arch raw))) ->
+     forall (i : nat) (f : dos_file), (i < 4)%nat -> In f (nth i files []) ->
+       fs_read (apply_effects fs0 (d_effects (disk_extract is_fd v2 into arch raw)))
+               (path_join (side_dir (target_of into arch) i) (dos_label f)) = Some (d_content f)).
+Proof. exact create_extract_directory. Qed.
+Print Assumptions C02_directory_after_extract.
